@@ -1,4 +1,5 @@
 import MgpuModel.Util
+import MgpuModel.C14_Flush
 /-! # C14 — barriers, wait counts and wavefront termination
 
 Hand-written transcription (tie H) of the timing scheduler's *internal instruction* logic
@@ -551,6 +552,7 @@ def handle (line : String) : String :=
   | [] => "bad"
   | first :: ops =>
     let toks := words first
+    if toks.contains "flush" then Flush.handle toks ops else
     if toks.contains "issue" then
       match kvNat? toks "v", kvNat? toks "s" with
       | some v, some sc => let r := issueFlat v sc; s!"ok=true v={r.1} s={r.2}"
